@@ -64,6 +64,15 @@ func faultAtom(t *rapid.T) (ast.Expr, string) {
 		{"value", lit(`[1,2,3]`).With(ast.Step{Kind: ast.SSlice, Stride: ast.I64(0)})},
 		{"variable", ast.Var("nope")},
 		{"variable", ast.Var("nope").With(ast.Step{Kind: ast.SField, Name: "x"})},
+		// a variable read where its binding is no longer (or not yet) in scope,
+		// inside another let that is
+		{"variable", mustParse("let $p = b in [let $q = b in $q, $q]")},
+		{"variable", mustParse("let $p = b in [(let $q = a in $q), $p] | [$q]")},
+		{"variable", mustParse("let $p = b, $q = $p in $q")},
+		{"variable", mustParse("let $p = (let $q = b in $q) in [$p, $q]")},
+		{"variable", mustParse("let $p = b in [$q, let $q = b in $q]")},
+		{"variable", mustParse("let $p = b in a[*].[let $q = @ in $q][] | [$q]")},
+		{"variable", mustParse("let $p = b in map(&(let $q = @ in $q), a) && $q")},
 		{"nan", ast.Bin("/", one, lit("0"))},
 		{"nan", ast.Bin("//", one, lit("0"))},
 		{"nan", ast.Bin("%", lit("0"), lit("0"))},
@@ -553,4 +562,13 @@ func init() {
 		}
 		return c08SyntaxVerdict(r.Calls[0].Expr, docs)
 	}
+}
+
+// mustParse reads a fixed palette expression with the reference parser.
+func mustParse(text string) ast.Expr {
+	pr := ast.Parse(text)
+	if pr.Verdict != ast.In {
+		panic("HARNESS-BUG: palette expression does not parse: " + text + ": " + pr.Reason)
+	}
+	return pr.Expr
 }
